@@ -131,9 +131,9 @@ def extract(prog, name, K=16):
                 continue
             s = models._stream(E_, rd[1][0])
             if s is not None and s[1] is not None and s[1][1] == s[1][2]:
-                calls.setdefault(target, set()).add(s[1][1])
+                calls.setdefault(target, set()).add((b, s[1][1]))
             else:
-                calls.setdefault(target, set()).add(None)
+                calls.setdefault(target, set()).add((b, None))
     E.call_hook = ch
     cell = ('o', ('p', 'reader'))
 
@@ -171,9 +171,10 @@ def extract(prog, name, K=16):
         bi = sites.get(id(args))
         if bi in ev:
             r = r | {bi}
-        if bi in inexact_blocks:
+        if bi in inexact_blocks or bi in nested_blocks:
             r = r | {bi}
         return r
+    nested_blocks = set(bi for ps in calls.values() for bi, _ in ps)
     inexact_blocks = set(i[0] for i in inexact)
     tt = TT(prog, body, lambda pl: None, call_result=call_result)
     fields = {}
@@ -189,9 +190,12 @@ def extract(prog, name, K=16):
     for key, blks in fields.items():
         for bi in blks:
             blk_fields.setdefault(bi, set()).add(key)
+    call_fields = blk_fields
     for bb in body['blocks']:
         pass
     inexact = [(tuple(sorted(blk_fields.get(bi, ()))), pos, n) for bi, pos, n in inexact]
+    # start positions of nested readers, with the fields each nested value flows into
+    calls = {tgt: set((pos, tuple(sorted(call_fields.get(bi, ())))) for bi, pos in ps) for tgt, ps in calls.items()}
     out = {'fields': {}, 'events': set(), 'dropped': set(), 'inexact': inexact, 'calls': calls}
     used = set()
     for key, blks in fields.items():
@@ -262,7 +266,7 @@ def generate(prog):
                 owned |= own
                 ent['fields'][key] = {'bits': ranges(own), 'with': ranges(rb - own)}
         if x['calls']:
-            ent['places'] = {k: sorted(v, key=lambda z: -1 if z is None else z) for k, v in sorted(x['calls'].items())}
+            ent['places'] = {k: sorted(set(p_ for p_, _ in v), key=lambda z: -1 if z is None else z) for k, v in sorted(x['calls'].items())}
         spec[n] = ent
     return spec
 
@@ -336,6 +340,10 @@ def run(prog, rep, tier):
                   '%s reads and drops bits %s; the reserved bits of the standard are %s' % (short, ranges(dropped), ent.get('pad', [])), nontrivial=bool(pad or dropped))
         for target, poss in sorted((ent.get('places') or {}).items()):
             gotp = x['calls'].get(target)
+            if gotp is not None:
+                # values that only feed the never-serialised tail fields may start at a variable position
+                gotp = set(p_ for p_, fl in gotp if not (fl and set(fl) <= tail))
+            poss = [p_ for p_ in poss if p_ is not None]
             rep.check(gotp is not None and sorted(gotp, key=lambda z: -1 if z is None else z) == poss, 'L1-placement', '%s>%s' % (short, target.split('::')[-1]), site,
                       '%s starts reading %s at bit %s of its field; the table says %s' % (short, target, sorted(gotp, key=str) if gotp else 'nowhere', poss),
                       sample={'dispatcher': short, 'register': target.split('::')[-1], 'start': poss})
